@@ -2433,6 +2433,7 @@ package xpath
 //@   loop 1 invariant[right-seen@C11] old(k(u.Right)) <= k(u.Right) && forall(j, Int, old(k(u.Right)) <= j && j < k(u.Right) ==> has(m, hashkey(spos(ref(u.Right), epoch(u.Right), j))))
 //@   assume[exhausted-state] xh(u) ==> u.iterator != nil && ixh(u.iterator)
 //@   ensures[exhausted-state@C12] result == nil ==> u.iterator != nil && ixh(u.iterator)
+//@   loop * invariant[one-element-per-key@C11] len(list) == len(m)
 //@ func (*lastFuncQuery).Select
 //@   props C15 C13
 //@   theory stream for C13
